@@ -256,6 +256,48 @@ def fd_part(ck, tier):
             raise MachineryError("FdTrace rejected but no offending event found: " + "\n".join(rej) + r.stdout[-1500:])
 
 
+def massupdate_part(ck, tier):
+    """the kinetic energy of the acceptance test is the one the momenta are drawn under -- also after estimate_mass() has replaced the
+    mass during a session: for scripted unit normals z, kinetic_energy(sample_momentum(z)) = z'z / 2 and velocity = M^-1 r"""
+    from inference.mcmc import HamiltonianChain
+
+    class Zs:
+        def __init__(self, z):
+            self.z = np.array(z, dtype=float)
+
+        def normal(self, loc=0.0, scale=1.0, size=None):
+            return np.asarray(loc) + np.asarray(scale) * self.z
+    c_ = np.array([0.3, -0.7, 1.1])
+    s_ = np.array([0.5, 2.0, 1.0])
+    post = lambda x: -0.5 * float(np.sum(((np.asarray(x, dtype=float) - c_) / s_) ** 2))
+    grad = lambda x: -(np.asarray(x, dtype=float) - c_) / s_ ** 2
+    zs = [np.array([1.0, 0.0, 0.0]), np.array([0.0, 1.0, 0.0]), np.array([0.0, 0.0, 1.0]), np.array([1.0, -2.0, 0.5])]
+    for diagonal in (True, False):
+        for start_mass in (None, np.array([1.0, 2.0, 0.5])):
+            ck.case(("estimate_mass", diagonal, start_mass is None))
+            try:
+                ch = HamiltonianChain(posterior=post, grad=grad, start=np.array([0.0, 0.0, 0.0]), epsilon=0.3, display_progress=False,
+                                      **({} if start_mass is None else {"inverse_mass": start_mass}))
+                ch.rng = np.random.default_rng(3 + seed())
+                ch.steps = 5
+                ch.advance(40)
+                ch.estimate_mass(diagonal=diagonal)
+                bad = []
+                for z in zs:
+                    r = np.asarray(ch.mass.sample_momentum(Zs(z)), dtype=float)
+                    ke = float(ch.kinetic_energy(r))
+                    if not abs(ke - 0.5 * float(z @ z)) <= 1e-9 * max(1.0, 0.5 * float(z @ z)):
+                        bad.append({"z": z.tolist(), "kinetic_energy": ke, "z'z/2": 0.5 * float(z @ z)})
+                ch.advance(3)                         # and the chain keeps running with the new mass
+            except Exception as ex:
+                ck.violation("estimate_mass / sample_momentum raised", {"diagonal": diagonal, "error": repr(ex)[:300]}, site="HamiltonianChain.estimate_mass")
+                continue
+            if bad:
+                ck.violation("after estimate_mass() the momenta are drawn under the kinetic energy used in the acceptance test: "
+                             "kinetic_energy(sample_momentum(z)) = z'z / 2", {"diagonal": diagonal, "mass_given_at_construction": start_mass is not None,
+                                                                                "mismatches": bad[:2]}, site="HamiltonianChain.estimate_mass")
+
+
 def run(tier):
     ck = Check("C07", tier)
     ck.rule = ("one case per exact orbit (config, start, unit-normal draw, step count) exported by TLC and replayed bit-exactly; "
@@ -266,4 +308,5 @@ def run(tier):
     orbit_part(ck, tier)
     offlattice_part(ck, tier)
     fd_part(ck, tier)
+    massupdate_part(ck, tier)
     return ck.finish()
